@@ -18,9 +18,11 @@ open J2M J2M.Runtime
 /--
   **C15.1** In the initial state every thread reads `none` — the class-level default — so no thread raises
   for a missing attribute.
-  NOTE: the model follows the *repaired* code. In the unrepaired Python (models_meta.py:171-172,
-  `data = threading.local(); data.context = None` executed once at import) only the importing thread has
-  the attribute, and `self.data.context` raises `AttributeError` in every other thread (§10-D11).
+  NOTE: the model follows the *repaired* code (`class _Local(threading.local): context = None`, a class-level
+  default visible in every thread). Before the repair (`data = threading.local(); data.context = None`,
+  executed once at import) only the importing thread had the attribute and `self.data.context` raised
+  `AttributeError` in every other thread (§10-D11); in a model of that code the slot of a non-importing
+  thread would be "unset" and this statement would be false.
 -/
 theorem worker_thread_ok (t : ThreadId) : ({} : CtxState).get t = none := rfl
 
